@@ -72,7 +72,7 @@ NormR(x) ==
               !.rd_addr = IF rd THEN @ ELSE 0, !.rd_chunk = IF rd THEN @ ELSE 0, !.rd_last = IF rd THEN @ ELSE 0,
               !.wr_addr = IF x.wr_valid = 1 THEN @ ELSE 0, !.wr_last = IF x.wr_valid = 1 THEN @ ELSE 0,
               !.aborted = IF x.fsm = "READ_DATA" THEN @ ELSE 0]
-NormO(x) == [x EXCEPT !.abw = FALSE,
+NormO(x) == [x EXCEPT !.abw = FALSE, !.mem = [B \in 0..NA - 1 |-> BmGet(x.mem, B)],
                       !.acc = IF x.pend THEN @ ELSE IF x.burst THEN [WbInit.acc EXCEPT !.a = x.acc.a, !.we = x.acc.we] ELSE WbInit.acc]
 
 Tick ==
@@ -95,7 +95,7 @@ Tick ==
   IN /\ r' = IF Narrow THEN NormR(BNext(R, r, i, BUG)) ELSE ENext(r, i, BUG)
      /\ obs' = NormO(res.s)
      /\ lastbad' = res.bad
-     /\ wcnt' = IF res.s.pend THEN wcnt + 1 ELSE 0
+     /\ wcnt' = IF res.s.pend /\ WMAX > 0 THEN wcnt + 1 ELSE 0          \* WMAX = 0 switches the progress bound off
      /\ seen' = IF COVER THEN seen \cup Goals ELSE seen
      /\ mem' = mem1
      /\ q' = q2
